@@ -56,6 +56,22 @@ def check_masked(inp):
     return f'NaN gradient (n={n}, size={size}, reg={use_reg})'
   if not close(got, want):
     return f'gradient of the padded batch differs from the unpadded one (n={n}, padded to {size}, reg={use_reg}): {got} vs {want}'
+  # a loss that is EXACTLY zero on some real rows (hinge): those rows are still examples - the mean is over the mask, not
+  # over the rows with a non-zero loss
+  if n > 0:
+    def hinge(p_, b_, k_):
+      return jnp.maximum(0.0, 1.0 - jnp.sign(b_['y']) * (b_['x'] @ p_['w'] + p_['b']) * 0.3)
+    dj = {k: jnp.asarray(v) for k, v in data.items()}
+    zero_rows = int((np.asarray(hinge(params, dj, key)) == 0).sum())
+    gh = models.grad(hinge, r)
+    want_h = gh(params, dj, key)
+    got_h = gh(params, {k: jnp.asarray(v) for k, v in pad(data, size, rng).items()}, key)
+    if not close(got_h, want_h):
+      return (f'hinge loss ({zero_rows} of {n} real rows have loss exactly 0): gradient of the padded batch {got_h} differs from '
+              f'the unpadded one {want_h} (padded to {size}, reg={use_reg})')
+    ref_g = jax.grad(lambda p_: jnp.mean(hinge(p_, dj, key)) + (reg(p_) if use_reg else 0.0))(params)
+    if not close(want_h, ref_g):
+      return f'hinge loss: grad() on the unpadded batch {want_h} differs from jax.grad of mean loss + regularizer {ref_g}'
   # the Model-based entry points are the same functions: model_grad(model, reg) = grad(model_per_example_loss(model), reg)
   mdl = models.Model(init=None, apply_for_train=lambda p_, b_, k_: b_['x'] @ p_['w'] + p_['b'],
                      apply_for_eval=None, train_loss=lambda b_, out: (out - b_['y']) ** 2, eval_metrics={})
